@@ -45,6 +45,13 @@ META = {
 
 GOOD = ('Reservoir Model, 4\nReservoir Depth, 3\nGradient 1, 50\nEnd-Use Option, 2\nPower Plant Type, 9\nPlant Lifetime, 3\n'
         'Time steps per year, 2\nPrint Output to Console, 0\n')
+FAMILIES = {
+    'plain': '',
+    'sdac': 'Do S-DAC-GT Calculations, True\n',
+    'addons': ('Do AddOn Calculations, True\nAddOn Nickname 1, Desal\nAddOn CAPEX 1, 10\nAddOn OPEX 1, 0.1\nAddOn Electricity Gained 1, 100\n'
+               'AddOn Heat Gained 1, 0.0\nAddOn Profit Gained 1, 0.05\n'),
+}
+PKG_DIR = os.path.dirname(os.path.abspath(gx.P.__file__))
 BAD = 'Reservoir Model, 4\nReservoir Depth, 3\nGradient 1, 50\nMaximum Temperature, 9999\nPrint Output to Console, 0\n'
 
 
@@ -134,7 +141,7 @@ def run_cli(cwd, args):
     return rc, restored[0], restored[1]
 
 
-def scenario(inst, shape, input_abs, failing):
+def scenario(inst, shape, input_abs, failing, family='plain'):
     """one run of every entry point in a fresh real tree; returns list of (obligation, ok, detail)."""
     A, B, C = inst['A'], inst['B'], inst['C']
     root = os.path.realpath(tempfile.mkdtemp(prefix='symx_c20_'))
@@ -150,7 +157,7 @@ def scenario(inst, shape, input_abs, failing):
         os.makedirs(absdir, exist_ok=True)
         inp_rel = 'in_' + B + '.txt'
         with open(os.path.join(work, inp_rel), 'w') as f:
-            f.write(BAD if failing else GOOD)
+            f.write((BAD if failing else GOOD) + FAMILIES[family])
         inp_arg = os.path.join(work, inp_rel) if input_abs else inp_rel
         name, name_noext = f'{B}.{C}', B
         out_arg = {'none': None, 'rel-file': name, 'rel-file-noext': name_noext, 'rel-dir-file': f'{A}/{name}', 'rel-dir-file-noext': f'{A}/{name_noext}',
@@ -159,8 +166,16 @@ def scenario(inst, shape, input_abs, failing):
         er = Path(expected_report)
         expected_json = str(er.with_name(er.stem + '.json')) if out_arg is not None else os.path.join(work, 'HDR.json')
         before = tree(root)
+        pkg_before = tree(PKG_DIR)
         rc, cwd_ok, argv_ok = run_cli(work, [inp_arg] + ([out_arg] if out_arg is not None else []))
         created = tree(root) - before
+        stray = sorted(f for f in tree(PKG_DIR) - pkg_before if '__pycache__' not in f and not f.endswith('.pyc'))
+        for f in stray:      # a (broken) tree wrote into its own package directory: report it below and leave /repo as it was
+            try:
+                os.unlink(os.path.join(PKG_DIR, f))
+            except OSError:
+                pass
+        res.append(('CLI: nothing is written into the program\'s own package directory', not stray, {'written into src/geophires_x': stray[:6]}))
         rel = lambda p: os.path.relpath(p, root)
         if failing:
             res.append(('CLI: a failing simulation exits with a non-zero status', rc not in (0, None), {'exit': rc}))
@@ -230,6 +245,20 @@ def units(tier, seed):
 _PATS = None
 
 
+def run_one(log, cfg, inst, shape, input_abs, failing, family):
+    obs, desc = scenario(inst, shape, input_abs, failing, family)
+    log['paths'] += 1
+    log['reachable'] += 1
+    for name, ok, detail in obs:
+        log['obligations'] += 1
+        if ok:
+            log['discharged'] += 1
+            continue
+        log['cex'].append({'obligation': name, 'finding': None, 'config': dict(cfg, shape=shape, input_abs=input_abs, failing=failing, family=family),
+                           'reproduced': True, 'inputs': dict(desc, names=inst), 'detail': detail, 'how': 'native run of the real entry points on the pattern witness',
+                           'attempts': []})
+
+
 def run_unit(unit):
     global _PATS
     if _PATS is None:
@@ -245,18 +274,9 @@ def run_unit(unit):
             for failing in (False, True):
                 if unit['tier'] == 'quick' and failing and input_abs:
                     continue
-                obs, desc = scenario(inst, shape, input_abs, failing)
-                log['paths'] += 1
-                log['reachable'] += 1
-                for name, ok, detail in obs:
-                    log['obligations'] += 1
-                    fid = None
-                    if ok:
-                        log['discharged'] += 1
-                        continue
-                    log['cex'].append({'obligation': name, 'finding': fid, 'config': dict(cfg, shape=shape, input_abs=input_abs, failing=failing),
-                                       'reproduced': True, 'inputs': dict(desc, names=inst), 'detail': detail, 'how': 'native run of the real entry points on the pattern witness',
-                                       'attempts': []})
+                fams = ['plain'] if (failing or input_abs or (unit['tier'] == 'quick' and shape not in ('none', 'rel-file', 'abs-dir-file'))) else list(FAMILIES)
+                for family in fams:
+                    run_one(log, cfg, inst, shape, input_abs, failing, family)
     if len(log['samples']) < 1:
         log['samples'].append({'pattern': cfg['pattern'], 'instance': inst, 'shapes': SHAPES})
     yield log.result()
@@ -264,6 +284,6 @@ def run_unit(unit):
 
 def replay(cex):
     cfg = cex['config']
-    obs, desc = scenario(cfg['instance'], cfg['shape'], cfg['input_abs'], cfg['failing'])
+    obs, desc = scenario(cfg['instance'], cfg['shape'], cfg['input_abs'], cfg['failing'], cfg.get('family', 'plain'))
     bad = [(n, d) for n, ok, d in obs if not ok]
     return bool(bad), {'failed': bad[:5]}
